@@ -75,6 +75,19 @@ def check(ctx):
     families(ctx, s)
     creation_guard(ctx, tc)
     phases(ctx, repo)
+    from .c11 import _spec_problems
+
+    ctx.rule("Q6", "an explicit aggregation spec whose name carries a time unit aggregates a source of the same unit (otherwise the value is off by the unit factor and the derived variant of that name is suppressed)")
+    grp_, pid_, origin_, _ = repo.agg_specs
+    nspec = 0
+    for group, table_ in ((True, grp_), (False, pid_)):
+        for k, sp in table_.items():
+            nspec += 1
+            for pr in _spec_problems(repo, k, sp, group=group):
+                if "is named as a per-" in pr:
+                    ctx.ob("Q6", ok=False, distinct=k)
+                    ctx.violation("Q6", f"{k}|unit", origin_.get((group, k), k), f"aggregate {k} {pr}")
+    ctx.ob("Q6", ok=True, distinct="specs", n=max(nspec, 1))
     ctx.floor("Q1", 12 + 12 + 24)
     ctx.floor("Q2", 12)
 
